@@ -160,4 +160,65 @@ theorem decodeLoop_sublist (k f : Nat) (d acc r : Bytes) (h : decodeLoop k f d a
                     rw [List.take_append_drop] at h1
                     exact h1.trans (hrest.trans (List.sublist_cons_self _ _))
 
+/-! ## rpc-error message scan -/
+
+theorem hasPrefix_eq_append : ∀ (s p : Bytes), hasPrefix s p = true → s = p ++ s.drop p.length
+  | _, [], _ => by simp
+  | [], _ :: _, h => by simp [hasPrefix] at h
+  | a :: s, b :: p, h => by
+    simp only [hasPrefix, Bool.and_eq_true, beq_iff_eq] at h
+    obtain ⟨hab, hp⟩ := h
+    subst hab
+    have := hasPrefix_eq_append s p hp
+    simp only [List.cons_append, List.length_cons, List.drop_succ_cons]
+    exact congrArg _ this
+
+/-- `findTag` splits its subject at one of the tags -/
+theorem findTag_split (tags : List Bytes) (s : Bytes) : ∀ (pre tg rest : Bytes),
+    findTag tags s = some (pre, tg, rest) → s = pre ++ tg ++ rest ∧ tg ∈ tags := by
+  induction s with
+  | nil => intro pre tg rest h; simp [findTag] at h
+  | cons b t ih =>
+    intro pre tg rest h
+    simp only [findTag] at h
+    split at h
+    · rename_i tg' hf
+      simp only [Option.some.injEq, Prod.mk.injEq] at h
+      obtain ⟨rfl, rfl, rfl⟩ := h
+      have hp : hasPrefix (b :: t) tg' = true := by simpa using List.find?_some hf
+      have hm := List.mem_of_find?_eq_some hf
+      exact ⟨by simpa using hasPrefix_eq_append _ _ hp, hm⟩
+    · cases hr : findTag tags t with
+      | none => simp [hr] at h
+      | some x =>
+        obtain ⟨pre', tg', rest'⟩ := x
+        simp only [hr, Option.map_some, Option.some.injEq, Prod.mk.injEq] at h
+        obtain ⟨rfl, rfl, rfl⟩ := h
+        have := ih _ _ _ hr
+        exact ⟨by rw [List.cons_append, List.cons_append, ← this.1], this.2⟩
+
+/-- every block the scan reports is an opening tag, some bytes and a closing tag, and it is a
+contiguous piece of the subject -/
+theorem errorBlocks_spec (f : Nat) : ∀ (s m : Bytes), m ∈ errorBlocks f s →
+    (∃ a b, s = a ++ m ++ b) ∧
+    ∃ o body c, o ∈ errOpenTags ∧ c ∈ errCloseTags ∧ m = o ++ body ++ c := by
+  induction f with
+  | zero => intro s m hm; simp [errorBlocks] at hm
+  | succ f ih =>
+    intro s m hm
+    simp only [errorBlocks] at hm
+    split at hm
+    · simp at hm
+    · rename_i pre otag rest ho
+      split at hm
+      · simp at hm
+      · rename_i body ctag rest' hc
+        obtain ⟨hs, hot⟩ := findTag_split _ _ _ _ _ ho
+        obtain ⟨hr, hct⟩ := findTag_split _ _ _ _ _ hc
+        simp only [List.mem_cons] at hm
+        rcases hm with rfl | hm
+        · exact ⟨⟨pre, rest', by rw [hs, hr]; simp⟩, otag, body, ctag, hot, hct, rfl⟩
+        · obtain ⟨⟨a, b, hab⟩, hshape⟩ := ih rest' m hm
+          exact ⟨⟨pre ++ otag ++ body ++ ctag ++ a, b, by rw [hs, hr, hab]; simp⟩, hshape⟩
+
 end Scrapli.Netconf
